@@ -215,12 +215,21 @@ def random_traces(run, n_runs, seed, units=(4, 12), pack_size=6, allow_mismatch=
         if outliers:
             # outlier models on/off, total number of reporting expected units around the threshold of 20
             opt_t, opt_m = rnd.random() < 0.8, rnd.random() < 0.7
+            if outliers == "both":
+                opt_t = opt_m = True
             for sc in pack:
                 sc["optT"], sc["optM"] = opt_t, opt_m
             n_rep = sum(1 for sc in pack for u in sc["units"] if ledger._rep_expected(sc, u))
-            target = rnd.choice([19, 20, 21, 22, 30, 45])
+            target = rnd.choice([19, 20, 21, 22, 30, 45] if outliers != "both" else [30, 45])
             kw["ballast_rep"] = max(10, target - n_rep)
             kw["pis"] = (0.7,)
+            if opt_t and opt_m and est_n == "bootstrap":
+                # one modelled reporting unit per scenario is made an outlier in turnout and in margin change: a unit
+                # flagged by both models is still ONE unit with ONE category (seeded change C01_F)
+                for sc in pack:
+                    cand = [u for u in sc["units"] if u["kind"] == "rep" and int(u["votes"]) >= 40]
+                    if cand and rnd.random() < 0.7:
+                        rnd.choice(cand)["extreme"] = True
         jobs.append((pack, estimators[n % len(estimators)], seed + n, kw))
     results = common.pool().map(_job_trace, jobs, chunksize=1)
     traces = []
@@ -285,6 +294,12 @@ def c01(tier, seed):
     # a small separate batch contains units whose feed row names another state than their baseline row (F8 class)
     # (both policies, every estimator: under 'drop' such a feed row must be passed through as an unexpected unit)
     traces += random_traces(run, 6 if tier == "quick" else 24, seed + 9, pack_size=4, allow_mismatch=True, policies=["drop", "zero"])
+    # the default configuration: outlier models on, more than 20 reporting units
+    otr = random_traces(run, 9 if tier == "quick" else 60, seed + 13, allow_mismatch=False, outliers="both", pack_size=3, units=(4, 9), estimators=["bootstrap", "bootstrap", "gaussian"])
+    for t in otr:
+        if any(u.get("outlierT") and u.get("outlierM") for u in t["sc"]["units"]):
+            run.witness("unit_flagged_by_both_outlier_models")
+    traces += otr
     # two polls on one feed frame that the caller updates in place: the second poll's ledger is the second feed's
     rnd2 = random.Random(seed + 11)
     pjobs = []
@@ -304,7 +319,7 @@ def c01(tier, seed):
         if "county_classification" in t["sc"]["levels"] and kinds & {"unexpRep", "unexpNon"}:
             run.witness("classification_level_with_unexpected_unit")
     validate_ledger_traces(run, traces, "Trace_Ledger_C01.cfg")
-    run.finish(require_witnesses=["exported_scenarios", "trace_with_unexpected_unit", "classification_level_with_unexpected_unit", "second_poll_on_the_same_feed_frame"])
+    run.finish(require_witnesses=["exported_scenarios", "trace_with_unexpected_unit", "classification_level_with_unexpected_unit", "second_poll_on_the_same_feed_frame", "unit_flagged_by_both_outlier_models"])
 
 
 # ---------------------------------------------------------------------------------------------------------------
